@@ -560,7 +560,7 @@ def clauseGeneration (i : Input) : List String :=
       if gs.conds.any (·.gen ≠ g.gen) || gs.listeners.any (fun l => l.conds.any (·.gen ≠ g.gen))
       then ["generation:gateway@" ++ g.ns ++ "/" ++ g.name] else []
 
-/-- `reason`: the Gateway API reasons of a rejected L7 parentRef say what is the case (RouteConditionReason docs:
+/-- reason STATISTIC (see `reasonDisagreements`; not in `judge`): the Gateway API reasons of a rejected L7 parentRef say what is the case (RouteConditionReason docs:
 NoMatchingParent = "no parent matches sectionName/port", NotAllowedByListeners = "not allowed by the listeners' allowedRoutes",
 NoMatchingListenerHostname = "no compatible listener whose hostname matches the route"), read over the objects:
 the listeners the parentRef selects by section name, those of them that allow the route's namespace and kind, and the
@@ -596,7 +596,7 @@ def clauseReason (i : Input) : List String :=
             ["reason:NoMatchingListenerHostname-but-hostnames-intersect@" ++ r.key]
           else []
 
-/-- `reason` for parentRefs to an IGNORED Gateway of our class: NoMatchingParent is untrue when that Gateway has the named
+/-- reason STATISTIC for parentRefs to an IGNORED Gateway of our class: NoMatchingParent does not describe the case when that Gateway has the named
 listener (the implementation looks the section name up among the WINNING Gateway's listeners) -/
 def clauseReasonIgnored (i : Input) : List String :=
   match i.winner with
@@ -626,6 +626,12 @@ def skipReason (i : Input) : Option String :=
 
 def judge (i : Input) : List String :=
   clauseEntries i ++ clauseAccepted i ++ clauseAttached i ++ clauseResolved i ++ clauseProgrammed i ++
-    clausePolicies i ++ clauseGeneration i ++ clauseReason i ++ clauseReasonIgnored i
+    clausePolicies i ++ clauseGeneration i
+
+/-- STATISTIC, not part of the verdict: where the REASON of an Accepted=False condition differs from the Gateway API reading of
+the objects. Property C07 speaks of Accepted true/false, attachedRoutes, ResolvedRefs true/false, entries and Programmed after a
+failed load — it does not prescribe reasons, so a disagreement here is never a finding (reasons are compared in the
+model⇔implementation status correspondence instead). -/
+def reasonDisagreements (i : Input) : List String := clauseReason i ++ clauseReasonIgnored i
 
 end NGF.StatusJudge
